@@ -54,6 +54,8 @@ type monitor struct {
 	// could know about the success. A success that vanished unobserved is a lost
 	// (unsuccessful) attempt, as the API documents.
 	observed map[string]int    // Pod key#uid -> process incarnation that saw it Succeeded
+	// persistedSuccess[pod key]: some applied Job write recorded this task as Succeeded
+	persistedSuccess map[string]bool
 	foreign  map[string]string // planted Pod key -> name of the Job whose task name it occupies
 
 	seenRestarts int
@@ -93,6 +95,9 @@ func (m *monitor) successKnown(k string) bool {
 		return false
 	}
 	key, uid := k[:i], k[i+1:]
+	if m.persistedSuccess[key] {
+		return true
+	}
 	ns, name := splitKey(key)
 	var ref *execution.TaskRef
 	for _, j := range m.r.w.API.Jobs() {
@@ -127,7 +132,7 @@ type podCreate struct {
 
 func newMonitor(r *e2run) *monitor {
 	return &monitor{r: r, labels: map[string]bool{}, userEdited: map[string]bool{}, userEditSeq: map[string]int{}, finishedSeq: map[string]int{}, podCreates: map[string][]podCreate{},
-		everTasks: map[string]map[string]bool{}, rejectedJobs: map[string]bool{}, jobCtlWrote: map[string]bool{}, startedAt: map[string]time.Time{}, observed: map[string]int{}, foreign: map[string]string{}}
+		everTasks: map[string]map[string]bool{}, rejectedJobs: map[string]bool{}, jobCtlWrote: map[string]bool{}, startedAt: map[string]time.Time{}, observed: map[string]int{}, persistedSuccess: map[string]bool{}, foreign: map[string]string{}}
 }
 
 func (m *monitor) on(p string) bool { return m.props == nil || m.props[p] }
@@ -238,6 +243,14 @@ func (m *monitor) onJobEntry(e *sim.Entry) {
 	if (e.Actor == "user" || e.Actor == "gc") && before != nil {
 		m.userEdited[string(before.UID)] = true
 		m.userEditSeq[string(before.UID)] = e.Seq
+	}
+	// a success that was written down once stays known, whatever later writes do to the record
+	if e.Applied && after != nil {
+		for _, tr := range after.Status.Tasks {
+			if tr.Status.Result == execution.TaskSucceeded {
+				m.persistedSuccess[after.Namespace+"/"+tr.Name] = true
+			}
+		}
 	}
 
 	// --- C13: a Job leaves the API only after every task listed in its status ---
